@@ -294,7 +294,7 @@ func (generator *ConverterGenerator) mappingForOption(context Context, converter
 			valuePath = ast.Path{
 				{Identifier: mapping.RepeatAs, Type: valueType, Root: true},
 			}
-		} else if mapping.RepeatFor != nil && assignment.Method == ast.IndexAssignment {
+		} else if mapping.RepeatFor != nil && assignment.Method == ast.IndexAssignment && assignment.Path.Last().Index != nil && assignment.Path.Last().Index.Argument != nil {
 			// index
 			indexPath := ast.Path{
 				{Identifier: mapping.RepeatIndex, Type: valueType, Root: true},
